@@ -7,7 +7,7 @@ use crate::scen::Entry;
 pub fn judge(w: &Worker, scen: &Scenario, ex: &Exec) -> Judgement {
     let exp = model::expect(scen);
     let mut v = vec![];
-    if let Some(why) = &exp.must_fail {
+    if let Some(why) = exp.must_fail.as_ref().or(exp.reject.as_ref()) {
         if exit0(ex) {
             v.push(format!("exit 0 although {}", why));
         }
@@ -122,6 +122,14 @@ pub fn scenarios(quick: bool) -> Vec<Scenario> {
             tree.push(Entry::dir("dst"));
             v.push(Scenario::new(&format!("deref-norecursive-two-operands-{}", d), tree, &["-L", "--driver", d, "-w", "2", "src/l_rel", "src/l_abs", "src/t", "dst"]));
         }
+        // the same link shapes selected by xcp's own --glob expansion (the pattern matches the links among other
+        // entries): a link that cannot be resolved is still a selected source and must make the run fail
+        for (name, ents) in &sp {
+            let mut tree = base();
+            tree.extend(ents.clone());
+            tree.push(Entry::dir("dst"));
+            v.push(Scenario::new(&format!("deref-glob-{}-{}", name, d), tree, &["-r", "-L", "-g", "--driver", d, "-w", "2", "src/*", "dst"]));
+        }
         // without -L links stay links (control)
         let mut tree = base();
         tree.extend(sp[0].1.clone());
@@ -145,7 +153,7 @@ pub fn run(ctx: &Ctx) -> Report {
     // resolving a link may fail half-way (readlink / stat errors, a target that has just vanished): the run may
     // fail, but it must not fall back to copying the link
     {
-        let w = Worker::new(44, &ctx.pool.bins);
+        let w = Worker::new(144, &ctx.pool.bins);
         let sp = specs();
         let mut jobs = vec![];
         let mut errs = vec![];
